@@ -560,6 +560,24 @@ impl<'c, 's> Run<'c, 's> {
                 self.viol(Prop::C13, "C13/get-eid-answer/short".into(), format!("Get Endpoint ID answer too short: {}", hex(&resp)));
             }
         }
+        // ---- in-domain requests must be answered at all (C13 / C14 / C15 say "is answered with ...")
+        if p.is_ok() && rlen.is_none() && pr.control && pr.rq && pec && pr.hdr_ok && !pr.ic {
+            let sets = self.nodes[ni].cfg.vplain.len();
+            let missing: Option<(Prop, &'static str)> = match pr.cmd {
+                0x01 if n == 14 && (b[11] == 0 || b[11] == 1) && (0x01..=0xFE).contains(&b[12]) => Some((Prop::C13, "C13/assign-answer/missing")),
+                0x01 if n == 14 && b[11] == 3 => Some((Prop::C13, "C13/discovered-flag/missing")),
+                0x02 => Some((Prop::C13, "C13/get-eid-answer/missing")),
+                0x03 => Some((Prop::C15, "C15/uuid/missing")),
+                0x04 if n == 13 => Some((Prop::C15, "C15/version/missing")),
+                0x05 => Some((Prop::C15, "C15/message-types/missing")),
+                0x06 if n == 13 && (b[11] as usize) < sets => Some((Prop::C14, "C14/answer/missing")),
+                _ => None,
+            };
+            if let Some((prop, sig)) = missing {
+                self.eval(prop, "request-must-be-answered");
+                self.viol(prop, sig.into(), format!("node{}: accepted request {} was not answered (process_packet returned no response)", ni, hex(&b)));
+            }
+        }
         self.check_state(ni, cause);
 
         if accepted_req {
@@ -856,6 +874,16 @@ impl<'c, 's> Run<'c, 's> {
             }
             if !w.done {
                 self.st.probe("walk-unfinished-at-end");
+                if !self.drain_guard_hit {
+                    // bounded liveness: once faults have stopped (the drain phase injects none) a walk
+                    // that was not abandoned by its requester's retry budget terminates
+                    self.eval(Prop::C14, "C14/walk-terminates-after-faults-stop");
+                    self.viol(
+                        Prop::C14,
+                        "C14/walk/stalled-after-faults-stopped".into(),
+                        format!("walk {} of node{} over node{} neither finished nor was abandoned although the bus drained without faults; selectors seen so far {:?}", wi, w.requester, w.responder, w.seen.iter().map(|s| s.0).collect::<Vec<u8>>()),
+                    );
+                }
                 continue;
             }
             self.eval(Prop::C14, "C14/walk");
